@@ -144,7 +144,12 @@ IsUpToDate(n, d, i, t) == LET lt == LastTerm(n, d) li == LastIndex(n, d)
                           IN t > lt \/ (t = lt /\ i >= li)
 
 \* the entry the raftLog view holds at index i (FirstIndex <= i <= LastIndex)
-EntryAt(n, d, i) == IF i >= n.uoff THEN n.uents[i - n.uoff + 1] ELSE d.ents[i - d.cidx]
+\* (total: an index the recorded state does not actually hold, which only a broken implementation
+\* can report, yields an entry that equals no real one instead of an evaluation error)
+NoSuchEntry == [term |-> 0, index |-> 0, type |-> "missing", pid |-> 0, rid |-> 0, cc |-> NoCC, sz |-> 0, psz |-> 0]
+EntryAt(n, d, i) == IF i >= n.uoff
+                    THEN (IF i - n.uoff + 1 \in DOMAIN n.uents THEN n.uents[i - n.uoff + 1] ELSE NoSuchEntry)
+                    ELSE (IF i - d.cidx \in DOMAIN d.ents THEN d.ents[i - d.cidx] ELSE NoSuchEntry)
 \* all entries of the logical log, FirstIndex..LastIndex
 LogEntries(n, d) == [k \in 1..(LastIndex(n, d) - FirstIndex(n, d) + 1) |-> EntryAt(n, d, FirstIndex(n, d) + k - 1)]
 
